@@ -272,15 +272,18 @@ func c12WordsFor(b int) (n, pad int) {
 type c12Rendered struct {
 	doc     *model.Document
 	n       []int // units per element
+	before  []int // units of all elements before this one
 	first   []int // first unit per element (1-based), 0 if none
 	total   int
 	titleEl map[string]int // heading text -> element index (1-based)
 	unitEl  []int          // unit -> element index (1-based); unitEl[0] unused
 }
 
-func c12Render(c *c12Case, max, min int, mode string) *c12Rendered {
+func c12Render(c *c12Case, max, min int, mode string, api ...string) *c12Rendered {
+	forLayout := len(api) > 0 && api[0] == "layout"
 	r := &c12Rendered{titleEl: map[string]int{}, unitEl: []int{0}}
 	r.n = make([]int, len(c.Doc))
+	r.before = make([]int, len(c.Doc))
 	r.first = make([]int, len(c.Doc))
 	pages := map[int]*model.Page{}
 	var order []*model.Page
@@ -299,8 +302,13 @@ func c12Render(c *c12Case, max, min int, mode string) *c12Rendered {
 		switch e.K {
 		case "H":
 			n = 1
+			if e.N == 0 { // hollow: white space only
+				n = 0
+			}
 		case "P":
-			if b := c12Bytes(e.A, max, min); b > 0 {
+			if e.N == 0 { // hollow: white space only
+				n = 0
+			} else if b := c12Bytes(e.A, max, min); b > 0 {
 				n, pad = c12WordsFor(b)
 			} else {
 				n = c12Words(e.A, max)
@@ -314,6 +322,7 @@ func c12Render(c *c12Case, max, min int, mode string) *c12Rendered {
 			n = e.A
 		}
 		r.n[i] = n
+		r.before[i] = g
 		if n > 0 {
 			r.first[i] = g + 1
 		}
@@ -328,11 +337,24 @@ func c12Render(c *c12Case, max, min int, mode string) *c12Rendered {
 		bbox := model.BBox{X: 72, Y: y, Width: 400, Height: 20}
 		switch e.K {
 		case "H":
-			txt := toks[0] // every content word is a tracked unit: the title is the token
-			r.titleEl[txt] = i + 1
+			txt := []string{"", "   "}[i%2] // hollow: a heading of white space
+			if n > 0 {
+				txt = toks[0] // every content word is a tracked unit: the title is the token
+				r.titleEl[txt] = i + 1
+			}
 			p.Elements = append(p.Elements, &model.Heading{Text: txt, Level: e.A, BBox: bbox, FontSize: 20})
-			p.Layout.Headings = append(p.Layout.Headings, model.HeadingInfo{Level: e.A, Text: txt, BBox: bbox, FontSize: 20, Confidence: 1})
+			if n > 0 || forLayout {
+				// the element chunker reads Layout.Headings only to recognise paragraphs that
+				// repeat a heading text: a blank entry would make every blank paragraph a heading
+				p.Layout.Headings = append(p.Layout.Headings, model.HeadingInfo{Level: e.A, Text: txt, BBox: bbox, FontSize: 20, Confidence: 1})
+			}
 		case "P":
+			if n == 0 { // hollow: a paragraph of spaces or newlines only
+				txt := []string{"  ", "\n\n", " \n "}[i%3]
+				p.Elements = append(p.Elements, &model.Paragraph{Text: txt, BBox: bbox, FontSize: 11})
+				p.Layout.Paragraphs = append(p.Layout.Paragraphs, model.ParagraphInfo{Index: len(p.Layout.Paragraphs), Text: txt, BBox: bbox, FontSize: 11})
+				break
+			}
 			var sb strings.Builder
 			for j, t := range toks {
 				if j > 0 {
@@ -358,6 +380,9 @@ func c12Render(c *c12Case, max, min int, mode string) *c12Rendered {
 			for j, t := range toks {
 				items[j] = model.ListItem{Text: t, Level: j % 3, Bullet: "-"}
 			}
+			if n == 0 && i%2 == 1 { // hollow: items without text instead of no items
+				items = []model.ListItem{{Text: "", Bullet: "-"}, {Text: " ", Level: 1, Bullet: "-"}}
+			}
 			ordered := i%2 == 1
 			p.Elements = append(p.Elements, &model.List{Items: items, Ordered: ordered, BBox: bbox})
 			lt := model.ListTypeBullet
@@ -373,6 +398,9 @@ func c12Render(c *c12Case, max, min int, mode string) *c12Rendered {
 					row = append(row, model.Cell{Text: toks[j+1], RowSpan: 1, ColSpan: 1, IsHeader: j == 0})
 				}
 				rows = append(rows, row)
+			}
+			if n == 0 && i%2 == 1 { // hollow: a row of empty cells instead of no rows
+				rows = [][]model.Cell{{{Text: "", RowSpan: 1, ColSpan: 1}, {Text: " ", RowSpan: 1, ColSpan: 1}}}
 			}
 			p.Elements = append(p.Elements, &model.Table{Rows: rows, BBox: bbox, HasGrid: true, Confidence: 1})
 		case "I":
@@ -450,7 +478,7 @@ func c12Project(chunks []*rag.Chunk, r *c12Rendered, api string) []c12Obs {
 	for i, ch := range chunks {
 		o := c12Obs{Index: ch.Metadata.ChunkIndex, ID: ch.ID, Ps: ch.Metadata.PageStart, Pe: ch.Metadata.PageEnd,
 			Total: ch.Metadata.TotalChunks, Path: []int{}, Units: []int{}, Title: -1}
-		if len(ch.Metadata.SectionPath) > 0 {
+		if len(ch.Metadata.SectionPath) > 0 && strings.TrimSpace(ch.Metadata.SectionTitle) != "" {
 			o.Title = r.titleEl[ch.Metadata.SectionTitle]
 			if twc := ch.TextWithContext; strings.HasPrefix(twc, "[") {
 				if end := strings.Index(twc, "]\n\n"); end < 0 || r.titleEl[twc[1:end]] != o.Title {
@@ -459,6 +487,10 @@ func c12Project(chunks []*rag.Chunk, r *c12Rendered, api string) []c12Obs {
 			}
 		}
 		for _, t := range ch.Metadata.SectionPath {
+			if strings.TrimSpace(t) == "" {
+				o.Path = append(o.Path, -1) // a heading without text (hollow)
+				continue
+			}
 			o.Path = append(o.Path, r.titleEl[t]) // 0 = not a heading of this document
 			if r.titleEl[t] == 0 {
 				o.Titles = append(o.Titles, t)
@@ -598,7 +630,17 @@ func c12Compare(c *c12Case, r *c12Rendered, obs []c12Obs, api string, mhl int) *
 	ids := map[string]bool{}
 	for i, o := range obs {
 		if len(o.Units) == 0 {
-			return &c12Fail{"empty-chunk", fmt.Sprintf("chunk %d contains no content unit of the document", i), i, 0}
+			// a chunk without content is only possible where a hollow element stands (all
+			// units before it consumed, none after it); it still takes part in the numbering
+			hollow := false
+			for el := range c.Doc {
+				if r.n[el] == 0 && r.before[el]+1 == want {
+					hollow = true
+				}
+			}
+			if !hollow {
+				return &c12Fail{"empty-chunk", fmt.Sprintf("chunk %d contains no content unit of the document", i), i, 0}
+			}
 		}
 		for _, u := range o.Units {
 			switch {
@@ -622,6 +664,9 @@ func c12Compare(c *c12Case, r *c12Rendered, obs []c12Obs, api string, mhl int) *
 			return &c12Fail{"id", fmt.Sprintf("chunk %d re-uses ID %q", i, o.ID), i, 0}
 		}
 		ids[o.ID] = true
+		if len(o.Units) == 0 {
+			continue // the chunk of a hollow element: index, id and total are all that is asked of it
+		}
 		// page range within the pages of its units
 		lo, hi := 1<<30, -1
 		elset := map[int]bool{}
@@ -636,18 +681,30 @@ func c12Compare(c *c12Case, r *c12Rendered, obs []c12Obs, api string, mhl int) *
 				hi = pg
 			}
 		}
+		// hollow elements standing directly before, between or after the chunk's units may
+		// have been taken into it: their pages are admissible too
+		for el := range c.Doc {
+			if r.n[el] == 0 && r.before[el]+1 >= o.Units[0] && r.before[el] <= o.Units[len(o.Units)-1] {
+				if pg := c.Doc[el].Pg; pg < lo {
+					lo = pg
+				}
+				if pg := c.Doc[el].Pg; pg > hi {
+					hi = pg
+				}
+			}
+		}
 		if !(o.Ps <= o.Pe && o.Ps >= lo && o.Pe <= hi) {
 			return &c12Fail{"page-range", fmt.Sprintf("chunk %d reports pages %d-%d, its content comes from pages %d..%d", i, o.Ps, o.Pe, lo, hi), i, r.unitEl[o.Units[0]]}
 		}
 		okPath := false
 		for el := range elset {
-			if c12EqInts(o.Path, c.Els[el-1].Path) || (api == "layout" && mhl == 3 && c12EqInts(o.Path, c.Els[el-1].Mpath)) {
+			if c12EqInts(o.Path, c12Norm(c, c.Els[el-1].Path)) || (api == "layout" && mhl == 3 && c12EqInts(o.Path, c12Norm(c, c.Els[el-1].Mpath))) {
 				okPath = true
 			}
 		}
 		if api == "layout" && mhl >= 1 && mhl <= 6 {
 			for el := range elset {
-				if mps := c.Els[el-1].Mps; len(mps) == 6 && c12EqInts(o.Path, mps[mhl-1]) {
+				if mps := c.Els[el-1].Mps; len(mps) == 6 && c12EqInts(o.Path, c12Norm(c, mps[mhl-1])) {
 					okPath = true
 				}
 			}
@@ -685,6 +742,19 @@ func c12Compare(c *c12Case, r *c12Rendered, obs []c12Obs, api string, mhl int) *
 	return nil
 }
 
+// c12Norm: a hollow heading has no text a path could name it by; -1 stands for it
+// (the same normalisation as NormPath in Chunking.tla).
+func c12Norm(c *c12Case, path []int) []int {
+	out := make([]int, len(path))
+	for i, h := range path {
+		out[i] = h
+		if h >= 1 && h <= len(c.Doc) && c.Doc[h-1].K == "H" && c.Doc[h-1].N == 0 {
+			out[i] = -1
+		}
+	}
+	return out
+}
+
 func c12ElOf(r *c12Rendered, u int) int {
 	if u >= 1 && u <= r.total {
 		return r.unitEl[u]
@@ -703,7 +773,7 @@ func c12Feature(c *c12Case, r *c12Rendered, f *c12Fail, cfg c12Cfg, mode string)
 			pc := *c
 			pc.Doc = c.Doc[:f.el]
 			pc.Els = c.Els[:f.el]
-			pr := c12Render(&pc, cfg.maxChars, cfg.minChars, mode)
+			pr := c12Render(&pc, cfg.maxChars, cfg.minChars, mode, cfg.api)
 			if chunks, err := c12Run(cfg, pr.doc); err == nil {
 				po := c12Project(chunks, pr, cfg.api)
 				for _, o := range po {
@@ -795,7 +865,7 @@ func c12ReplayCase(i int, raw []byte) Result {
 			if mode == "addpage" && c.OnlyMode == "" && ci%3 != 0 && len(c.Pages) > 0 && c.Pages[0] == 1 {
 				continue // AddPage numbering only differs when the pages are not 1..n
 			}
-			r := c12Render(&c, cfg.maxChars, cfg.minChars, mode)
+			r := c12Render(&c, cfg.maxChars, cfg.minChars, mode, cfg.api)
 			chunks, err := c12Run(cfg, r.doc)
 			res.Evals++
 			replay := func(obs interface{}) interface{} {
@@ -891,6 +961,15 @@ func c12Record(in, out string) error {
 				if lnorm && (e.K == "T" || e.K == "I") {
 					e.K, e.A = "P", 2
 				}
+				e.N = 1 // n = 0 marks a hollow heading / paragraph
+				if rnd.Intn(8) == 0 {
+					switch e.K { // a hollow element: white space only / no items / no rows
+					case "H", "P":
+						e.N = 0
+					case "L", "T":
+						e.A, e.N = 0, 0
+					}
+				}
 				c.Doc = append(c.Doc, e)
 			}
 			if lnorm {
@@ -916,7 +995,7 @@ func c12Record(in, out string) error {
 				if rnd.Intn(3) == 0 {
 					mode = "addpage"
 				}
-				r := c12Render(&c, cfg.maxChars, cfg.minChars, mode)
+				r := c12Render(&c, cfg.maxChars, cfg.minChars, mode, cfg.api)
 				chunks, err := c12Run(cfg, r.doc)
 				evals++
 				if err != nil {
@@ -943,7 +1022,7 @@ func c12TraceCase(i int, raw []byte) Result {
 		if cfg.name != c.OnlyCfg {
 			continue
 		}
-		r := c12Render(&c, cfg.maxChars, cfg.minChars, c.OnlyMode)
+		r := c12Render(&c, cfg.maxChars, cfg.minChars, c.OnlyMode, cfg.api)
 		chunks, err := c12Run(cfg, r.doc)
 		res.Evals++
 		if err != nil {
@@ -955,7 +1034,7 @@ func c12TraceCase(i int, raw []byte) Result {
 		if ob.cfg.name != c.OnlyCfg {
 			continue
 		}
-		r := c12Render(&c, ob.cfg.maxChars, ob.cfg.minChars, "direct")
+		r := c12Render(&c, ob.cfg.maxChars, ob.cfg.minChars, "direct", ob.cfg.api)
 		chunks, err := ob.mk()(r.doc)
 		res.Evals++
 		if err != nil {
